@@ -167,7 +167,9 @@ DataLines(Tok) == {w0 \o t1 \o w1 \o t2 \o (IF r = "" THEN tw ELSE w2 \o r) :
 CommentLines == IF LineSet = "tiny" THEN {"#0 1"} ELSE {"#", "# x", "#0 1", "# Vertex1 Vertex2 Label"}
 \* malformed lines (C15)
 BadLines == {"", " ", "7", " 7 ", "a b", "x 1", "1 y", "-1 0", "0 -1", "-2 3", "99999999999 0", "0 99999999999",
-             "1x 0", "0 1 2 3", "\t", "0", "0,1", "1;2 3"}
+             "1x 0", "0 1 2 3", "\t", "0", "0,1", "1;2 3",
+             \* indices at the edges of the 32-bit ranges (too large to allocate if accepted: must throw)
+             "4294967295 0", "0 4294967295", "2147483648 1", "4294967296 0", "-2147483648 0", "+ 1", "- 1"}
 
 \* canonical spelling of a well-formed line: tokens separated by single spaces
 Canonical(s) == LET tk == Tokenize(s) IN
